@@ -23,7 +23,7 @@ SLOTS = {
                  op="str", mp="opath"),
     "Inner": dict(x="int", name="str", c="ocfg", d="ocfg", mc="ocfg", oc="ocfg"),
     "Bag": dict(li="lint", lf="olfloat", ls="olstr", lc="lcfg", dc="dcfg", di="odint", ds="odstr", ll="ollint",
-                dd="oddint", ld="oldint", dl="odlcfg", mlc="lcfg", lp="olpath", le="olColor"),
+                dd="oddint", ld="oldint", dl="odlcfg", mlc="lcfg", lp="olpath", le="olColor", ddd="odddint"),
     "Req": dict(a="int!", b="str!", c="cfg!"),
     "TaskA": dict(x="int", c="ocfg", l="lcfg"),
     "TaskOut": dict(x="int", c="ocfg"),
@@ -35,14 +35,18 @@ SLOTS = {
     "OldT": dict(x="int", c="ocfg"),
     "V1": dict(x="int!", c="ocfg"),
     "V2": dict(x="int!", c="ocfg", y="int", aa="str", z="str", oz="ocfg"),
+    "K1": dict(x="int"), "K2": dict(x="int"),
+    "W1": dict(x="int", c="ocfg"), "W2": dict(x="int", c="ocfg"),
+    "S2": dict(a="str!", b="str"),
 }
 CLASS_WEIGHTS = [("Leaf", 6), ("Inner", 7), ("Bag", 5), ("Req", 1), ("TaskA", 2), ("TaskOut", 1), ("Pre", 1),
-                 ("Init", 1), ("NewL", 1), ("OldL", 1), ("NewT", 1), ("OldT", 1), ("V1", 1), ("V2", 1)]
+                 ("Init", 1), ("NewL", 1), ("OldL", 1), ("NewT", 1), ("OldT", 1), ("V1", 1), ("V2", 1), ("K1", 1), ("W1", 1), ("S2", 1)]
 # slots whose declaration is ignored (Meta/Option) -- used by the neutral-edit generator
 IGNORED = {"Leaf": {"m", "op", "mp"}, "Inner": {"mc", "oc"}, "Bag": {"mlc", "lp"}, "Init": {"w"}, "V2": {"z"}}
 DEFAULTS = {("Leaf", "f"): 1.5, ("Leaf", "s"): "a", ("Leaf", "b"): False, ("Leaf", "e"): "RED", ("Inner", "x"): 0,
             ("Inner", "name"): "", ("TaskA", "x"): 0, ("TaskOut", "x"): 0, ("Pre", "v"): 0, ("Init", "v"): 0,
-            ("NewL", "i"): 0, ("OldL", "i"): 0, ("NewT", "x"): 0, ("OldT", "x"): 0, ("V2", "y"): 3, ("V2", "aa"): "dflt"}
+            ("NewL", "i"): 0, ("OldL", "i"): 0, ("NewT", "x"): 0, ("OldT", "x"): 0, ("V2", "y"): 3, ("V2", "aa"): "dflt",
+            ("K1", "x"): 0, ("K2", "x"): 0, ("W1", "x"): 0, ("W2", "x"): 0, ("S2", "b"): ""}
 
 
 def vint(v):
@@ -129,6 +133,8 @@ class Gen:
         names = list(SLOTS[cls].items())
         self.rng.shuffle(names)          # keyword order is part of what is varied
         for name, kind in names:
+            if name == "ddd" and not self.malformed:
+                continue            # three-level dicts are outside the claimed domain (C03)
             req = kind.endswith("!")
             if not req and self.rng.random() < 0.45:
                 continue
@@ -433,3 +439,209 @@ def neutral_edit(rng, desc, g):
                     d["actions"].insert(1, dict(a="set", n=i, name="dc", v=cur))
                 return d, kind
     return None
+
+
+# ------------------------------------------------------------------ signature-changing near edits (C03)
+def _scalar_different(rng, kind, old):
+    pools = {"int": [vint(x) for x in [0, 1, 2, 3, 5, 256, -1]], "str": [vstr(x) for x in ["", "a", "b", "ab", "ba", "a b"]],
+             "float": [vfloat(x) for x in [0.0, 1.0, 1.5, 2.5, -1.5]],
+             "bool": [{"t": "bool", "v": True}, {"t": "bool", "v": False}],
+             "Color": [{"t": "enum", "e": "Color", "m": m} for m in COLORS],
+             "Shape": [{"t": "enum", "e": "Shape", "m": m} for m in SHAPES]}
+    cand = [v for v in pools[kind] if v != old]
+    return rng.choice(cand)
+
+
+def _pyval(v):
+    """python-level value of a scalar description (for default comparisons)"""
+    if v["t"] == "float":
+        return float.fromhex(v["hex"])
+    if v["t"] == "enum":
+        return v["m"]
+    return v.get("v")
+
+
+def signature_edit(rng, desc):
+    """One small structural edit that changes the canonical signature of node i.
+    Returns (edited description, kind, i, which) where which is 'raw' (raw and full identifiers of i must
+    change) or 'full' (only the full identifier must change), or None."""
+    d = copy.deepcopy(desc)
+    n = len(d["nodes"])
+    kinds = ["scalar", "list-swap", "list-move", "dict-rename", "dict-move", "sibling-move", "list-len", "constant",
+             "type-identifier", "pre-task", "init-order", "enum-member", "dict-swap-values", "nested-move"]
+    rng.shuffle(kinds)
+    assigned = {(a["n"], a["name"]) for a in d["actions"] if a["a"] == "set"}
+    for kind in kinds:
+        cands = list(range(n))
+        rng.shuffle(cands)
+        for i in cands:
+            nd = d["nodes"][i]
+            cls = nd["cls"]
+            kw = _kwd(nd)
+            ign = IGNORED.get(cls, set())
+
+            def put(s, v):
+                nd["kw"] = [[a, b] for a, b in nd["kw"] if a != s] + [[s, v]]
+
+            if kind in ("scalar", "enum-member"):
+                want = ("Color", "Shape") if kind == "enum-member" else ("int", "str", "float", "bool")
+                slots = [(s, k.rstrip("!").lstrip("o")) for s, k in SLOTS[cls].items()
+                         if k.rstrip("!").lstrip("o") in want and s not in ign and (i, s) not in assigned]
+                if not slots:
+                    continue
+                s, k = rng.choice(slots)
+                old = kw.get(s)
+                dflt = DEFAULTS.get((cls, s))
+                if old is None and dflt is None and not SLOTS[cls][s].endswith("!"):
+                    oldp = None
+                else:
+                    oldp = _pyval(old) if old is not None and old != NONE else dflt
+                for _ in range(6):
+                    v = _scalar_different(rng, k, old)
+                    if _pyval(v) != oldp and not (oldp is None and False):
+                        put(s, v)
+                        return d, kind, i, "raw"
+                continue
+            if kind in ("list-swap", "list-len", "list-move", "nested-move"):
+                slots = [s for s, k in SLOTS[cls].items() if k in ("lint", "olstr", "olfloat", "olColor") and s not in ign
+                         and kw.get(s, NONE) != NONE and (i, s) not in assigned]
+                if kind == "nested-move":
+                    v = kw.get("ll")
+                    if cls != "Bag" or not v or v == NONE or len(v["v"]) < 2 or not v["v"][0]["v"]:
+                        continue
+                    v = copy.deepcopy(v)
+                    el = v["v"][0]["v"].pop()          # last element of the first inner list
+                    v["v"][1]["v"].insert(0, el)       # becomes first element of the next inner list
+                    put("ll", v)
+                    return d, kind, i, "raw"
+                if not slots:
+                    continue
+                s = rng.choice(slots)
+                v = copy.deepcopy(kw[s])
+                if kind == "list-swap":
+                    idx = [(a, b) for a in range(len(v["v"])) for b in range(a + 1, len(v["v"])) if v["v"][a] != v["v"][b]]
+                    if not idx:
+                        continue
+                    a, b = rng.choice(idx)
+                    v["v"][a], v["v"][b] = v["v"][b], v["v"][a]
+                elif kind == "list-len":
+                    if v["v"] and rng.random() < 0.5:
+                        v["v"].pop(rng.randrange(len(v["v"])))
+                    else:
+                        base = SLOTS[cls][s].lstrip("o")[1:]
+                        v["v"].append(_scalar_different(rng, base, None))
+                else:
+                    continue
+                if s == "li" and v["v"] == []:      # default [] : equal to default would still differ from non-empty
+                    pass
+                put(s, v)
+                return d, kind, i, "raw"
+            if kind in ("dict-rename", "dict-move", "dict-swap-values"):
+                slots = [s for s in ("di", "ds") if cls == "Bag" and kw.get(s, NONE) != NONE and kw[s]["v"] and (i, s) not in assigned]
+                if kind == "dict-move":
+                    v = kw.get("dd")
+                    if cls != "Bag" or not v or v == NONE or len(v["v"]) < 2:
+                        continue
+                    v = copy.deepcopy(v)
+                    src = [e for e in v["v"] if e[1]["v"]]
+                    if not src:
+                        continue
+                    a = rng.choice(src)
+                    b = rng.choice([e for e in v["v"] if e is not a])
+                    item = a[1]["v"].pop()
+                    if item[0] in [x[0] for x in b[1]["v"]]:
+                        continue
+                    b[1]["v"].append(item)
+                    put("dd", v)
+                    return d, kind, i, "raw"
+                if not slots:
+                    continue
+                s = rng.choice(slots)
+                v = copy.deepcopy(kw[s])
+                if kind == "dict-rename":
+                    e = rng.choice(v["v"])
+                    new = rng.choice([k for k in KEYS + ["q", "zz"] if k not in [x[0] for x in v["v"]]])
+                    e[0] = new
+                else:
+                    idx = [(a, b) for a in range(len(v["v"])) for b in range(a + 1, len(v["v"])) if v["v"][a][1] != v["v"][b][1]]
+                    if not idx:
+                        continue
+                    a, b = rng.choice(idx)
+                    v["v"][a][1], v["v"][b][1] = v["v"][b][1], v["v"][a][1]
+                put(s, v)
+                return d, kind, i, "raw"
+            if kind == "sibling-move":
+                if cls == "Inner" and not ({(i, "c"), (i, "d")} & assigned):
+                    c, dd = kw.get("c", NONE), kw.get("d", NONE)
+                    if c == dd:
+                        continue
+                    put("c", dd)
+                    put("d", c)
+                    return d, kind, i, "raw"
+                if cls == "Leaf":
+                    a, b = kw.get("oi", NONE), kw.get("os_", NONE)
+                    if a != NONE and b == NONE:
+                        # an int moved to ... nothing comparable; use s <-> os_
+                        pass
+                    s1, s2 = kw.get("s", vstr("a")), kw.get("os_", NONE)
+                    if s2 == NONE or s1 == s2:
+                        continue
+                    put("s", s2)
+                    put("os_", s1)
+                    return d, kind, i, "raw"
+                continue
+            if kind == "constant":
+                if cls not in ("K1", "K2"):
+                    continue
+                nd["cls"] = "K2" if cls == "K1" else "K1"
+                return d, kind, i, "raw"
+            if kind == "type-identifier":
+                if cls not in ("W1", "W2"):
+                    continue
+                nd["cls"] = "W2" if cls == "W1" else "W1"
+                return d, kind, i, "raw"
+            if kind == "pre-task":
+                light = [j for j in range(n) if d["nodes"][j]["cls"] in LIGHT and j != i]
+                if not light or cls in TASKS:
+                    continue
+                # a new pre-task object with a value no other pre-task has
+                d["nodes"].append(dict(cls="Pre", kw=[["v", vint(rng.choice([901, 902, 903]))]]))
+                d["actions"].insert(0, dict(a="pre", n=i, ids=[len(d["nodes"]) - 1]))
+                return d, kind, i, "full"
+            if kind == "init-order":
+                for a in d["actions"]:
+                    if a["a"] == "submit" and len(a.get("init", [])) >= 2 and a["n"] == i:
+                        a["init"] = a["init"][1:] + a["init"][:1]
+                        return d, kind, i, "full"
+                continue
+    return None
+
+
+def collision_pairs():
+    """The two families outside the claimed domain (control characters; 3-level dicts): the model must
+    collide exactly where the implementation does."""
+    a = dict(nodes=[dict(cls="S2", kw=[["a", vstr("x")], ["b", vstr("y")]])], actions=[])
+    b = dict(nodes=[dict(cls="S2", kw=[["a", vstr("x\x03b\x05\x03y")]])], actions=[])
+    d3 = lambda v: dict(nodes=[dict(cls="Bag", kw=[["ddd", v]])], actions=[])
+    i1 = {"t": "dict", "v": [["x", vint(1)]]}
+    e = {"t": "dict", "v": []}
+    c = d3({"t": "dict", "v": [["a", {"t": "dict", "v": [["b", i1]]}], ["c", e]]})
+    dd = d3({"t": "dict", "v": [["a", {"t": "dict", "v": [["b", i1], ["c", e]]}]]})
+    # (a, b, family, a in the typed domain?, b in the typed domain?)
+    return [(a, b, "string-control-characters", True, False), (c, dd, "dict-three-levels", False, False)]
+
+
+# ------------------------------------------------------------------ declared types (C03 domain)
+def g_sty(t):
+    if isinstance(t, list):
+        return "(%s %s)" % ({"list": "TList", "dict": "TDict", "opt": "TOpt"}[t[0]], g_sty(t[1]))
+    return {"int": "TInt", "float": "TFloat", "str": "TStr", "enum": "TEnum", "obj": "TObj", "other": "TObj"}[t]
+
+
+def g_types(classes):
+    return glist(glist(f"({gbytes(a['name'])}%N, {g_sty(a['ty'])})" for a in c["args"]) for c in classes)
+
+
+def g_scase(export, node, expect_wf):
+    return (f"{{| s_classes := {g_classes(export['classes'])}; s_heap := {g_heap(export['nodes'])}; "
+            f"s_types := {g_types(export['classes'])}; s_node := {gnat(node)}; s_expect_wf := {gbool(expect_wf)} |}}")
